@@ -487,10 +487,13 @@ func (ex *Exec) sinkCall(fr *Frame, sd *SinkDecl, name string, callee *ssa.Funct
 		ex.obligationFull(fr, st, "call-requires", fmt.Sprintf("text passed to %s.%s (parameter %s) must be %s", sd.Recv, meth, sig.Params().At(i).Name(), sd.Pred), goal, false, fmt.Sprintf("sink.%s.%d@%d", meth, i, ex.siteOrdinal(ex.cur)), ground)
 		vc.curProps = nil
 	}
+	if sc := vc.prog.scopeFor(callee); sc != nil {
+		ex.scopeCall(fr, sc, callee, args, st)
+	}
 	res := sig.Results()
 	mk := func(i int) Val {
 		rt := res.At(i).Type()
-		if types.Identical(rt, sig.Recv().Type()) && len(args) > 0 {
+		if types.Identical(rt, sig.Recv().Type()) && len(args) > 0 && !strings.HasPrefix(meth, "New") {
 			return tv(ex.toTerm(st, args[0], nil))
 		}
 		v := ex.freshOfType(st, rt, "res_"+meth)
